@@ -26,10 +26,14 @@ structure Later (c : Cfg) (s s' : St) : Prop where
   nbc : s'.nbConsumed = s.nbConsumed
   ncomp : s.nCompleted ≤ s'.nCompleted
   pos : s.srcPos ≤ s'.srcPos
+  work_le : work s' ≤ work s
+  io : s.iterating = s.origAlive → s'.iterating = s'.origAlive
+  exh : s.ready = [] → s.srcDead = true → s'.ready = [] ∧ s'.srcDead = true
 
 theorem Later.refl (c : Cfg) (s : St) : Later c s s :=
   ⟨Frame.refl s, Nat.le_refl _, fun _ _ => ⟨rfl, rfl, rfl⟩, fun _ _ _ => ⟨rfl, rfl⟩, fun _ => Nat.le_refl _,
-   fun _ _ => rfl, fun _ => ⟨[], by simp⟩, id, rfl, rfl, Nat.le_refl _, Nat.le_refl _⟩
+   fun _ _ => rfl, fun _ => ⟨[], by simp⟩, id, rfl, rfl, Nat.le_refl _, Nat.le_refl _, Nat.le_refl _, id,
+   fun a b => ⟨a, b⟩⟩
 
 theorem Later.trans {c : Cfg} {a b d : St} (h1 : Later c a b) (h2 : Later c b d) : Later c a d := by
   have hab : d.aborting = false → b.aborting = false := by
@@ -38,7 +42,9 @@ theorem Later.trans {c : Cfg} {a b d : St} (h1 : Later c a b) (h2 : Later c b d)
     | false => rfl
     | true => rw [h2.frame.abort_mono hb] at hd; simp at hd
   refine ⟨h1.frame.trans h2.frame, Nat.le_trans h1.len h2.len, ?_, ?_, ?_, ?_, ?_, fun hp => h2.post (h1.post hp),
-    h2.now.trans h1.now, h2.nbc.trans h1.nbc, Nat.le_trans h1.ncomp h2.ncomp, Nat.le_trans h1.pos h2.pos⟩
+    h2.now.trans h1.now, h2.nbc.trans h1.nbc, Nat.le_trans h1.ncomp h2.ncomp, Nat.le_trans h1.pos h2.pos,
+    Nat.le_trans h2.work_le h1.work_le, fun h => h2.io (h1.io h),
+    fun a b => h2.exh (h1.exh a b).1 (h1.exh a b).2⟩
   · intro i hi
     have x := h1.old i hi
     have y := h2.old i (Nat.lt_of_lt_of_le hi h1.len)
@@ -60,11 +66,14 @@ theorem Later.of_same {c : Cfg} {s s' : St}
     (hparked : s'.parked.length ≤ s.parked.length) (hready : s'.ready = s.ready) (hpos : s'.srcPos = s.srcPos)
     (hdead : s'.srcDead = s.srcDead) (hab : s'.aborting = s.aborting) (hit : s'.iterating = s.iterating)
     (hnow : s'.now = s.now) (hnbc : s'.nbConsumed = s.nbConsumed) (hnc : s'.nCompleted = s.nCompleted)
+    (hor : s'.origAlive = s.origAlive)
     (hf : Frame s s') : Later c s s' := by
   have hg : ∀ j, getTrk s' j = getTrk s j := getTrk_same htrk
   refine ⟨hf, by rw [htrk]; exact Nat.le_refl _, fun i _ => by rw [hg]; exact ⟨rfl, rfl, rfl⟩,
     fun i _ _ => by rw [hg]; exact ⟨rfl, rfl⟩, ?_, ?_, fun _ => ⟨[], by simp [hjobs]⟩, ?_, hnow, hnbc,
-    by rw [hnc]; exact Nat.le_refl _, by rw [hpos]; exact Nat.le_refl _⟩
+    by rw [hnc]; exact Nat.le_refl _, by rw [hpos]; exact Nat.le_refl _,
+    by simp only [work, hready, hpos, hf.spec]; exact Nat.le_refl _, by rw [hit, hor]; exact id,
+    by rw [hready, hdead]; exact fun a b => ⟨a, b⟩⟩
   · intro _; simp only [meas, unpopped, work, hjobs, hjs, hready, hpos, hf.spec]; omega
   · intro _ _; simp only [JoblibModel.ParallelProto.restS, hjobs, hready, hpos, hf.spec, hf.base, hg]
   · intro hp; simp only [Post, hab, hit, hready, hdead] at hp ⊢; exact hp
@@ -73,7 +82,9 @@ theorem Later.of_dlspec {c : Cfg} {t0 : Nat} {fo : Bool} {s s' : St} {more : Boo
     (hna : s.aborting = false) (h : DLSpec c t0 fo s s' more) : Later c s s' := by
   refine ⟨h.frame, h.len, fun i hi => by rw [h.old i hi]; exact ⟨rfl, rfl, rfl⟩,
     fun i hi _ => by rw [h.old i hi]; exact ⟨rfl, rfl⟩, h.meas_le, h.restS, h.jobs_pre, ?_, h.same.2.1,
-    h.same.2.2.2.2.2.2.2.2.2.1, by rw [h.same.2.2.2.1]; exact Nat.le_refl _, ?_⟩
+    h.same.2.2.2.2.2.2.2.2.2.1, by rw [h.same.2.2.2.1]; exact Nat.le_refl _, ?_, h.work_le,
+    by rw [h.same.2.2.2.2.1, h.same.2.2.2.2.2.1]; exact id,
+    fun a b => ⟨(h.exh_stable a b).1, (h.exh_stable a b).2.1⟩⟩
   · intro hp ha hi
     rw [h.same.2.2.2.2.1] at hi
     obtain ⟨h1, h2⟩ := hp hna hi
@@ -93,7 +104,7 @@ structure DCSpec (c : Cfg) (t0 : Nat) (s s' : St) (more : Bool) : Prop where
     ∃ i, t0 ≤ i ∧ i < s'.trk.length ∧ (getTrk s' i).status = .pending
   work_lt : more = true → s'.aborting = false → work s' < work s
   same : s'.sched = s.sched ∧ s'.hung = s.hung ∧ s'.idle = s.idle ∧ s'.iterating = s.iterating ∧
-    s'.origAlive = s.origAlive ∧ s'.nCompleted = s.nCompleted ∧ s'.inCb = s.inCb
+    s'.origAlive = s.origAlive ∧ s'.nCompleted = s.nCompleted ∧ s'.inCb = s.inCb ∧ s'.preLeft = s.preLeft
   meas_lt : more = false → meas c s' ≤ meas c s
 
 theorem dispatchOneCb_spec {c : Cfg} (hc : CfgOK c) {t0 : Nat} {s : St}
@@ -110,11 +121,11 @@ theorem dispatchOneCb_spec {c : Cfg} (hc : CfgOK c) {t0 : Nat} {s : St}
     have hL0 : InvL c t0 { s with bsI := s.bsI + 1 } := InvL_of hL id rfl id hL.orig_exh
     have hd := dispatchLocked_dlspec hc (fo := true) hbs hT0 hS0 hL0 hna
     have hl0 : Later c s { s with bsI := s.bsI + 1 } :=
-      Later.of_same rfl rfl rfl (Nat.le_refl _) rfl rfl rfl rfl rfl rfl rfl rfl
+      Later.of_same rfl rfl rfl (Nat.le_refl _) rfl rfl rfl rfl rfl rfl rfl rfl rfl
         ⟨rfl, rfl, rfl, rfl, rfl, rfl, rfl, rfl, id⟩
     refine ⟨hd.T, hd.S, hd.L, fun hp => hd.iterp (fun a b => hp a b), hl0.trans (Later.of_dlspec hna hd), ?_, hd.pend,
       hd.work_lt, ⟨hd.same.1, hd.same.2.2.1, hd.same.2.2.2.2.2.2.1, hd.same.2.2.2.2.1, hd.same.2.2.2.2.2.1,
-        hd.same.2.2.2.1, hd.same.2.2.2.2.2.2.2.2.1⟩, fun hm => hd.meas_le (hd.more_abort hm)⟩
+        hd.same.2.2.2.1, hd.same.2.2.2.2.2.2.2.2.1, hd.pre_orig rfl⟩, fun hm => hd.meas_le (hd.more_abort hm)⟩
     intro hm ha
     obtain ⟨h1, h2⟩ := hd.exh hm ha
     exact ⟨h1, by simpa using h2⟩
@@ -122,7 +133,7 @@ theorem dispatchOneCb_spec {c : Cfg} (hc : CfgOK c) {t0 : Nat} {s : St}
     have hd := dispatchLocked_dlspec hc (fo := true) hbs hT hS hL hna
     refine ⟨hd.T, hd.S, hd.L, hd.iterp, Later.of_dlspec hna hd, ?_, hd.pend,
       hd.work_lt, ⟨hd.same.1, hd.same.2.2.1, hd.same.2.2.2.2.2.2.1, hd.same.2.2.2.2.1, hd.same.2.2.2.2.2.1,
-        hd.same.2.2.2.1, hd.same.2.2.2.2.2.2.2.2.1⟩, fun hm => hd.meas_le (hd.more_abort hm)⟩
+        hd.same.2.2.2.1, hd.same.2.2.2.2.2.2.2.2.1, hd.pre_orig rfl⟩, fun hm => hd.meas_le (hd.more_abort hm)⟩
     intro hm ha
     obtain ⟨h1, h2⟩ := hd.exh hm ha
     exact ⟨h1, by simpa using h2⟩
@@ -134,6 +145,7 @@ structure CBSpec (c : Cfg) (t0 : Nat) (s s' : St) : Prop where
   sched : s'.sched = s.sched
   hung : s'.hung = s.hung
   idle : s'.idle = s.idle
+  pre : s'.preLeft = s.preLeft
 
 theorem own_of_callId {c : Cfg} {t0 : Nat} {hole : Option Nat} {s : St} {i : Nat} (hT : InvT c t0 hole s)
     (h : (getTrk s i).callId = s.callId) : t0 ≤ i ∧ i < s.trk.length := by
@@ -167,13 +179,13 @@ theorem callback_spec {c : Cfg} (hc : CfgOK c) {t0 : Nat} {s : St} {i : Nat} {fa
     CBSpec c t0 s (callback c s i failed) := by
   by_cases hst' : (getTrk s i).callId ≠ s.callId
   · rw [stale_callback_noop c s i failed hst']
-    refine ⟨⟨InvT_hole_drop hT (Or.inr ?_), hS, hL, hP⟩, Later.refl c s, rfl, rfl, rfl⟩
+    refine ⟨⟨InvT_hole_drop hT (Or.inr ?_), hS, hL, hP⟩, Later.refl c s, rfl, rfl, rfl, rfl⟩
     intro ⟨h0, h1⟩; exact hst' (hT.ownId i h0 h1)
   have hst : (getTrk s i).callId = s.callId := by simpa using hst'
   obtain ⟨hi0, hi1⟩ := own_of_callId hT hst
   by_cases hab : s.aborting = true
   · rw [aborting_callback_noop c s i failed hab]
-    exact ⟨⟨InvT_hole_drop hT (Or.inl hab), hS, hL, hP⟩, Later.refl c s, rfl, rfl, rfl⟩
+    exact ⟨⟨InvT_hole_drop hT (Or.inl hab), hS, hL, hP⟩, Later.refl c s, rfl, rfl, rfl, rfl⟩
   have hna : s.aborting = false := by simpa using hab
   have hp : (getTrk s i).status = .pending := (hT.parked_pending hna i hi0 hi1).mpr (Or.inr rfl)
   unfold callback
@@ -196,9 +208,10 @@ theorem callback_spec {c : Cfg} (hc : CfgOK c) {t0 : Nat} {s : St} {i : Nat} {fa
         rw [hg]; grind) rfl rfl rfl
     have hL' := InvL_of (s' := { s with trk := s.trk.set i { getTrk s i with status := .error, result := .exc (.task id) }, exception := true, aborting := true, jobs := if ordered c then s.jobs else s.jobs ++ [i] })
       hL (fun h => h) rfl (fun h => h) (by intro _ _ h3; simp at h3)
-    refine ⟨⟨hT', hS', hL', by intro h3; simp at h3⟩, ?_, rfl, rfl, rfl⟩
+    refine ⟨⟨hT', hS', hL', by intro h3; simp at h3⟩, ?_, rfl, rfl, rfl, rfl⟩
     refine ⟨⟨rfl, rfl, rfl, rfl, rfl, rfl, rfl, rfl, fun _ => rfl⟩, by simp, ?_, ?_, by simp, by simp, ?_,
-      by intro _ h3; simp at h3, rfl, rfl, Nat.le_refl _, Nat.le_refl _⟩
+      by intro _ h3; simp at h3, rfl, rfl, Nat.le_refl _, Nat.le_refl _, Nat.le_refl _, fun h => h,
+      fun a b => ⟨a, b⟩⟩
     · intro j _; rw [hg]; grind
     · intro j _ hs; rw [hg]; grind
     · intro ho; exact ⟨[], by simp [ho]⟩
@@ -217,7 +230,7 @@ theorem callback_spec {c : Cfg} (hc : CfgOK c) {t0 : Nat} {s : St} {i : Nat} {fa
       hL id rfl id hL.orig_exh
     have hl2 : Later c s { s with trk := s.trk.set i { getTrk s i with status := .done, result := .vals (getTrk s i).items }, jobs := if ordered c then s.jobs else s.jobs ++ [i], nCompleted := s.nCompleted + (getTrk s i).bsize } := by
       refine ⟨⟨rfl, rfl, rfl, rfl, rfl, rfl, rfl, rfl, id⟩, by simp, ?_, ?_, ?_, ?_, ?_, ?_, rfl, rfl,
-        Nat.le_add_right _ _, Nat.le_refl _⟩
+        Nat.le_add_right _ _, Nat.le_refl _, Nat.le_refl _, id, fun a b => ⟨a, b⟩⟩
       · intro j _; rw [hg]; grind
       · intro j _ hs; rw [hg]; grind
       · intro _
@@ -238,7 +251,8 @@ theorem callback_spec {c : Cfg} (hc : CfgOK c) {t0 : Nat} {s : St} {i : Nat} {fa
       simp only at hd ⊢
       cases more with
       | true =>
-        refine ⟨⟨hd.T, hd.S, hd.L, ?_⟩, hl2.trans hd.later, hd.same.1, hd.same.2.1, hd.same.2.2.1⟩
+        refine ⟨⟨hd.T, hd.S, hd.L, ?_⟩, hl2.trans hd.later, hd.same.1, hd.same.2.1, hd.same.2.2.1,
+          hd.same.2.2.2.2.2.2.2⟩
         intro ha _; exact hd.pend rfl ha
       | false =>
         have hT4 : InvT c t0 none { s3 with iterating := false, origAlive := false } :=
@@ -248,15 +262,15 @@ theorem callback_spec {c : Cfg} (hc : CfgOK c) {t0 : Nat} {s : St} {i : Nat} {fa
         have hL4 : InvL c t0 { s3 with iterating := false, origAlive := false } :=
           InvL_clear hd.L rfl rfl rfl (fun ha => hd.exh rfl ha)
         refine ⟨⟨hT4, hS4, hL4, by intro _ h3; simp at h3⟩, (hl2.trans hd.later).trans ?_, hd.same.1, hd.same.2.1,
-          hd.same.2.2.1⟩
+          hd.same.2.2.1, hd.same.2.2.2.2.2.2.2⟩
         have hg3 : ∀ j, getTrk { s3 with iterating := false, origAlive := false } j = getTrk s3 j := fun j => rfl
         refine ⟨⟨rfl, rfl, rfl, rfl, rfl, rfl, rfl, rfl, id⟩, Nat.le_refl _, fun j _ => ⟨rfl, rfl, rfl⟩,
           fun j _ _ => ⟨rfl, rfl⟩, fun _ => Nat.le_refl _, fun _ _ => rfl, fun _ => ⟨[], by simp⟩, ?_, rfl, rfl,
-          Nat.le_refl _, Nat.le_refl _⟩
+          Nat.le_refl _, Nat.le_refl _, Nat.le_refl _, fun _ => rfl, fun a b => ⟨a, b⟩⟩
         intro _ ha _; exact hd.exh rfl ha
     · have hor' : s.origAlive = false := by simpa using hor
       rw [if_neg hor]
-      refine ⟨⟨hT2, hS2, hL2, ?_⟩, hl2, rfl, rfl, rfl⟩
+      refine ⟨⟨hT2, hS2, hL2, ?_⟩, hl2, rfl, rfl, rfl, rfl⟩
       intro _ hit
       have := hL.iter_orig hit
       rw [hor'] at this; simp at this
@@ -282,7 +296,7 @@ theorem deliver_spec {c : Cfg} (hc : CfgOK c) {t0 : Nat} {s : St} (k : Nat) (h :
   cases hk : s.parked[k]? with
   | none =>
     simp only
-    refine ⟨⟨h, Later.refl c s, rfl, rfl, rfl⟩, ?_⟩
+    refine ⟨⟨h, Later.refl c s, rfl, rfl, rfl, rfl⟩, ?_⟩
     intro hlt; rw [List.getElem?_eq_getElem hlt] at hk; simp at hk
   | some i =>
     simp only
@@ -311,7 +325,7 @@ theorem deliver_spec {c : Cfg} (hc : CfgOK c) {t0 : Nat} {s : St} (k : Nat) (h :
       Later.of_same (by rw [hex]) (by rw [hex]) (by rw [hex])
         (by rw [hex]; simp [List.length_eraseIdx, hklt])
         (by rw [hex]) (by rw [hex]) (by rw [hex]) (by rw [hex]) (by rw [hex]) (by rw [hex]) (by rw [hex])
-        (by rw [hex]) (by rw [hex]; exact ⟨rfl, rfl, rfl, rfl, rfl, rfl, rfl, rfl, id⟩)
+        (by rw [hex]) (by rw [hex]) (by rw [hex]; exact ⟨rfl, rfl, rfl, rfl, rfl, rfl, rfl, rfl, id⟩)
     have hmA : meas c { s3 with inCb := true } + 1 = meas c s := by
       rw [hex]
       simp only [meas, unpopped, work, List.length_eraseIdx, hklt, if_true]; omega
@@ -325,28 +339,31 @@ theorem deliver_spec {c : Cfg} (hc : CfgOK c) {t0 : Nat} {s : St} (k : Nat) (h :
         rw [this]; exact y)
     generalize callback c { s3 with inCb := true } i failed = sB at hcb
     have hlC : Later c sB { sB with inCb := false } :=
-      Later.of_same rfl rfl rfl (Nat.le_refl _) rfl rfl rfl rfl rfl rfl rfl rfl
+      Later.of_same rfl rfl rfl (Nat.le_refl _) rfl rfl rfl rfl rfl rfl rfl rfl rfl
         ⟨rfl, rfl, rfl, rfl, rfl, rfl, rfl, rfl, id⟩
     have hIC : Inv c t0 { sB with inCb := false } :=
       hcb.inv.frame rfl rfl rfl rfl rfl rfl rfl rfl rfl rfl rfl rfl rfl ⟨rfl, rfl, rfl, rfl, rfl, rfl, rfl, rfl, id⟩
-    refine ⟨⟨hIC, (hlA.trans hcb.later).trans hlC, ?_, ?_, ?_⟩, ?_⟩
+    refine ⟨⟨hIC, (hlA.trans hcb.later).trans hlC, ?_, ?_, ?_, ?_⟩, ?_⟩
     · show sB.sched = s.sched
       rw [hcb.sched, hex]
     · show sB.hung = s.hung
       rw [hcb.hung, hex]
     · show sB.idle = s.idle
       rw [hcb.idle, hex]
+    · show sB.preLeft = s.preLeft
+      rw [hcb.pre, hex]
     · intro _ ha
       have := hcb.later.meas_le ha
       have h2 : meas c { sB with inCb := false } = meas c sB := rfl
       omega
 
 theorem CBSpec.refl {c : Cfg} {t0 : Nat} {s : St} (h : Inv c t0 s) : CBSpec c t0 s s :=
-  ⟨h, Later.refl c s, rfl, rfl, rfl⟩
+  ⟨h, Later.refl c s, rfl, rfl, rfl, rfl⟩
 
 theorem CBSpec.trans {c : Cfg} {t0 : Nat} {a b d : St} (h1 : CBSpec c t0 a b) (h2 : CBSpec c t0 b d) :
     CBSpec c t0 a d :=
-  ⟨h2.inv, h1.later.trans h2.later, h2.sched.trans h1.sched, h2.hung.trans h1.hung, h2.idle.trans h1.idle⟩
+  ⟨h2.inv, h1.later.trans h2.later, h2.sched.trans h1.sched, h2.hung.trans h1.hung, h2.idle.trans h1.idle,
+   h2.pre.trans h1.pre⟩
 
 theorem deliverAll_spec {c : Cfg} (hc : CfgOK c) {t0 : Nat} : ∀ (l : List Nat) (s : St), Inv c t0 s →
     CBSpec c t0 s (deliverAll c s l) := by
@@ -372,6 +389,7 @@ structure HookSpec (c : Cfg) (t0 : Nat) (sleep : Bool) (s s' : St) : Prop where
   sched_le : s'.sched.length ≤ s.sched.length
   prog : sleep = true → (s.parked ≠ [] ∨ s.sched ≠ []) → s'.aborting = false →
     meas c s' + s'.sched.length + 1 ≤ meas c s + s.sched.length
+  pre : s'.preLeft = s.preLeft
 
 theorem hook_spec {c : Cfg} (hc : CfgOK c) {t0 : Nat} (sleep : Bool) {s : St} (h : Inv c t0 s) :
     HookSpec c t0 sleep s (hook c sleep s) := by
@@ -383,7 +401,7 @@ theorem hook_spec {c : Cfg} (hc : CfgOK c) {t0 : Nat} (sleep : Bool) {s : St} (h
     have h1 : Inv c t0 { s with sched := rest } :=
       h.frame rfl rfl rfl rfl rfl rfl rfl rfl rfl rfl rfl rfl rfl ⟨rfl, rfl, rfl, rfl, rfl, rfl, rfl, rfl, id⟩
     have hl1 : Later c s { s with sched := rest } :=
-      Later.of_same rfl rfl rfl (Nat.le_refl _) rfl rfl rfl rfl rfl rfl rfl rfl
+      Later.of_same rfl rfl rfl (Nat.le_refl _) rfl rfl rfl rfl rfl rfl rfl rfl rfl
         ⟨rfl, rfl, rfl, rfl, rfl, rfl, rfl, rfl, id⟩
     have hd := deliverAll_spec hc entry _ h1
     generalize deliverAll c { s with sched := rest } entry = s2 at hd
@@ -391,16 +409,16 @@ theorem hook_spec {c : Cfg} (hc : CfgOK c) {t0 : Nat} (sleep : Bool) {s : St} (h
     have hm1 : meas c { s with sched := rest } = meas c s := rfl
     cases sleep with
     | false =>
-      refine ⟨hd.inv, hl1.trans hd.later, fun _ => hd.hung, fun _ => hd.hung, ?_, ?_⟩
+      refine ⟨hd.inv, hl1.trans hd.later, fun _ => hd.hung, fun _ => hd.hung, ?_, ?_, hd.pre⟩
       · show s2.sched.length ≤ _; rw [hsch, hs]; simp
       · intro hh; cases hh
     | true =>
       have h3 : Inv c t0 { s2 with idle := 0 } :=
         hd.inv.frame rfl rfl rfl rfl rfl rfl rfl rfl rfl rfl rfl rfl rfl ⟨rfl, rfl, rfl, rfl, rfl, rfl, rfl, rfl, id⟩
       have hl3 : Later c s2 { s2 with idle := 0 } :=
-        Later.of_same rfl rfl rfl (Nat.le_refl _) rfl rfl rfl rfl rfl rfl rfl rfl
+        Later.of_same rfl rfl rfl (Nat.le_refl _) rfl rfl rfl rfl rfl rfl rfl rfl rfl
           ⟨rfl, rfl, rfl, rfl, rfl, rfl, rfl, rfl, id⟩
-      refine ⟨h3, (hl1.trans hd.later).trans hl3, fun _ => hd.hung, fun _ => hd.hung, ?_, ?_⟩
+      refine ⟨h3, (hl1.trans hd.later).trans hl3, fun _ => hd.hung, fun _ => hd.hung, ?_, ?_, hd.pre⟩
       · show s2.sched.length ≤ _; rw [hsch, hs]; simp
       · intro _ _ ha
         have := hd.later.meas_le ha
@@ -410,7 +428,7 @@ theorem hook_spec {c : Cfg} (hc : CfgOK c) {t0 : Nat} (sleep : Bool) {s : St} (h
     simp only
     cases sleep with
     | false =>
-      refine ⟨h, Later.refl c s, fun _ => rfl, fun _ => rfl, Nat.le_refl _, ?_⟩
+      refine ⟨h, Later.refl c s, fun _ => rfl, fun _ => rfl, Nat.le_refl _, ?_, rfl⟩
       intro hh; cases hh
     | true =>
       simp only [if_true]
@@ -419,10 +437,10 @@ theorem hook_spec {c : Cfg} (hc : CfgOK c) {t0 : Nat} (sleep : Bool) {s : St} (h
         have h1 : Inv c t0 { s with idle := 0, sched := [] } :=
           h.frame rfl rfl rfl rfl rfl rfl rfl rfl rfl rfl rfl rfl rfl ⟨rfl, rfl, rfl, rfl, rfl, rfl, rfl, rfl, id⟩
         have hl1 : Later c s { s with idle := 0, sched := [] } :=
-          Later.of_same rfl rfl rfl (Nat.le_refl _) rfl rfl rfl rfl rfl rfl rfl rfl
+          Later.of_same rfl rfl rfl (Nat.le_refl _) rfl rfl rfl rfl rfl rfl rfl rfl rfl
             ⟨rfl, rfl, rfl, rfl, rfl, rfl, rfl, rfl, id⟩
         obtain ⟨hd, hm⟩ := deliver_spec hc 0 h1
-        refine ⟨hd.inv, hl1.trans hd.later, fun _ => hd.hung, fun _ => hd.hung, ?_, ?_⟩
+        refine ⟨hd.inv, hl1.trans hd.later, fun _ => hd.hung, fun _ => hd.hung, ?_, ?_, hd.pre⟩
         · rw [hd.sched]; simp
         · intro _ _ ha
           have := hm hp ha
@@ -438,7 +456,7 @@ theorem hook_spec {c : Cfg} (hc : CfgOK c) {t0 : Nat} (sleep : Bool) {s : St} (h
         have h1 : Inv c t0 { s with idle := s.idle + 1, sched := [] } :=
           h.frame rfl rfl rfl rfl rfl rfl rfl rfl rfl rfl rfl rfl rfl ⟨rfl, rfl, rfl, rfl, rfl, rfl, rfl, rfl, id⟩
         have hl1 : Later c s { s with idle := s.idle + 1, sched := [] } :=
-          Later.of_same rfl rfl rfl (Nat.le_refl _) rfl rfl rfl rfl rfl rfl rfl rfl
+          Later.of_same rfl rfl rfl (Nat.le_refl _) rfl rfl rfl rfl rfl rfl rfl rfl rfl
             ⟨rfl, rfl, rfl, rfl, rfl, rfl, rfl, rfl, id⟩
         have hno : ¬ (s.parked ≠ [] ∨ ([] : List (List Nat)) ≠ []) := by
           intro hor; rcases hor with hor | hor
@@ -447,12 +465,12 @@ theorem hook_spec {c : Cfg} (hc : CfgOK c) {t0 : Nat} (sleep : Bool) {s : St} (h
         split
         · refine ⟨h1.frame rfl rfl rfl rfl rfl rfl rfl rfl rfl rfl rfl rfl rfl
               ⟨rfl, rfl, rfl, rfl, rfl, rfl, rfl, rfl, id⟩,
-            hl1.trans (Later.of_same rfl rfl rfl (Nat.le_refl _) rfl rfl rfl rfl rfl rfl rfl rfl
-              ⟨rfl, rfl, rfl, rfl, rfl, rfl, rfl, rfl, id⟩), ?_, ?_, by simp, ?_⟩
+            hl1.trans (Later.of_same rfl rfl rfl (Nat.le_refl _) rfl rfl rfl rfl rfl rfl rfl rfl rfl
+              ⟨rfl, rfl, rfl, rfl, rfl, rfl, rfl, rfl, id⟩), ?_, ?_, by simp, ?_, rfl⟩
           · intro hh; cases hh
           · intro hor; rw [hs] at hor; exact absurd hor hno
           · intro _ hor; rw [hs] at hor; exact absurd hor hno
-        · refine ⟨h1, hl1, fun _ => rfl, fun _ => rfl, by simp, ?_⟩
+        · refine ⟨h1, hl1, fun _ => rfl, fun _ => rfl, by simp, ?_, rfl⟩
           intro _ hor; rw [hs] at hor; exact absurd hor hno
 
 end JoblibModel.ParallelProto
